@@ -520,14 +520,16 @@ fn cps(line: &str) -> String {
 }
 
 /// the lines `GitignoreBuilder::add` hands to `add_line`: `BufRead::lines()`; a chunk that is not UTF-8 is skipped
-/// (234ccee; it still counts as a line), one U+FEFF is dropped from the line with index 0 (e983cb6)
+/// (234ccee; it still counts as a line), one trailing LF then one trailing CR go (3df4263, also on a last line without
+/// LF), one U+FEFF is dropped from the first line (e983cb6)
 fn content_lines(content: &[u8]) -> Vec<String> {
     let mut out = vec![];
     for (i, chunk) in content.split_inclusive(|b| *b == b'\n').enumerate() {
         match std::str::from_utf8(chunk) {
             Err(_) => continue,
             Ok(s) => {
-                let s = s.strip_suffix('\n').map(|s| s.strip_suffix('\r').unwrap_or(s)).unwrap_or(s);
+                let s = s.strip_suffix('\n').unwrap_or(s);
+                let s = s.strip_suffix('\r').unwrap_or(s);
                 let s = if i == 0 { s.strip_prefix('\u{feff}').unwrap_or(s) } else { s };
                 out.push(s.to_string());
             }
@@ -722,18 +724,6 @@ fn reader_mechanism(c: &Case, p: &[u8], is_dir: bool, repair: fn(&[u8]) -> Optio
     b.len() == 2 && b[0] == b[1]
 }
 
-/// the file does not end in LF and its last byte is CR: git supplies the LF and then drops the CR before it,
-/// `BufRead::lines` leaves the CR in the last line (and since 5031338 `add_line` no longer trims it)
-fn repair_cr_at_eof(content: &[u8]) -> Option<Vec<u8>> {
-    if content.last() == Some(&b'\r') {
-        let mut r = content.to_vec();
-        r.push(b'\n');
-        Some(r)
-    } else {
-        None
-    }
-}
-
 /// a line is not valid UTF-8: `GitignoreBuilder::add` cannot use it as a glob and skips it (since 234ccee only that
 /// line, the reading goes on); for git the line is a pattern of bytes like any other (it matches a Latin-1 file name)
 fn repair_invalid_utf8(content: &[u8]) -> Option<Vec<u8>> {
@@ -756,7 +746,7 @@ fn repair_invalid_utf8(content: &[u8]) -> Option<Vec<u8>> {
 fn repair_all_reading(content: &[u8]) -> Option<Vec<u8>> {
     let mut cur = content.to_vec();
     let mut any = false;
-    for f in [repair_invalid_utf8 as fn(&[u8]) -> Option<Vec<u8>>, repair_cr_at_eof] {
+    for f in [repair_invalid_utf8 as fn(&[u8]) -> Option<Vec<u8>>] {
         if let Some(r) = f(&cur) {
             cur = r;
             any = true;
@@ -770,9 +760,6 @@ fn repair_all_reading(content: &[u8]) -> Option<Vec<u8>> {
 }
 
 fn classify_path(c: &Case, p: &[u8], is_dir: bool, drv: &mut Driver) -> &'static str {
-    if reader_mechanism(c, p, is_dir, repair_cr_at_eof, drv) {
-        return "cr-at-eof-kept";
-    }
     if reader_mechanism(c, p, is_dir, repair_invalid_utf8, drv) {
         return "undecodable-line-dropped";
     }
@@ -780,7 +767,7 @@ fn classify_path(c: &Case, p: &[u8], is_dir: bool, drv: &mut Driver) -> &'static
     // agreement; attributed to the first cause present
     if reader_mechanism(c, p, is_dir, repair_all_reading, drv) {
         let above = |d: &Vec<u8>| d.is_empty() || (p.len() > d.len() + 1 && p.starts_with(d) && p[d.len()] == b'/');
-        for (name, f) in [("undecodable-line-dropped", repair_invalid_utf8 as fn(&[u8]) -> Option<Vec<u8>>), ("cr-at-eof-kept", repair_cr_at_eof)] {
+        for (name, f) in [("undecodable-line-dropped", repair_invalid_utf8 as fn(&[u8]) -> Option<Vec<u8>>)] {
             if c.ignores.iter().any(|(d, content)| above(d) && f(content).is_some()) {
                 return name;
             }
